@@ -80,6 +80,7 @@ void ABTI_ythread_callback_thread_yield_to(void *arg)
      * migration), which has been increased by p_prev to avoid making a pool
      * size 0. */
     ABTI_pool_dec_num_blocked(p_pool);
+    ABTI_VERIF_EV(ABTI_VEV_NB_WHO, &p_prev->thread, p_pool, 2);
 }
 
 void ABTI_ythread_callback_resume_yield_to(void *arg)
@@ -101,6 +102,7 @@ void ABTI_ythread_callback_resume_yield_to(void *arg)
     }
     /* Decrease the number of blocked threads of p_next's pool. */
     ABTI_pool_dec_num_blocked(p_next->thread.p_pool);
+    ABTI_VERIF_EV(ABTI_VEV_NB_WHO, &p_next->thread, p_next->thread.p_pool, 2);
 }
 
 void ABTI_ythread_callback_suspend(void *arg)
@@ -110,6 +112,7 @@ void ABTI_ythread_callback_suspend(void *arg)
     /* Increase the number of blocked threads of the original pool (i.e., before
      * migration) */
     ABTI_pool_inc_num_blocked(p_prev->thread.p_pool);
+    ABTI_VERIF_EV(ABTI_VEV_NB_WHO, &p_prev->thread, p_prev->thread.p_pool, 1);
     /* Request handling.  p_prev->thread.p_pool might be changed. */
     ABTI_thread_handle_request(&p_prev->thread, ABT_FALSE);
     /* Set this thread's state to BLOCKED. */
@@ -133,8 +136,10 @@ void ABTI_ythread_callback_resume_suspend_to(void *arg)
     if (p_prev_pool != p_next_pool) {
         /* Increase the number of blocked threads of p_prev's pool */
         ABTI_pool_inc_num_blocked(p_prev_pool);
+        ABTI_VERIF_EV(ABTI_VEV_NB_WHO, &p_prev->thread, p_prev_pool, 1);
         /* Decrease the number of blocked threads of p_next's pool */
         ABTI_pool_dec_num_blocked(p_next_pool);
+        ABTI_VERIF_EV(ABTI_VEV_NB_WHO, &p_next->thread, p_next_pool, 2);
     }
     /* Request handling.  p_prev->thread.p_pool might be changed. */
     ABTI_thread_handle_request(&p_prev->thread, ABT_FALSE);
@@ -168,6 +173,7 @@ void ABTI_ythread_callback_resume_exit_to(void *arg)
                           p_prev->thread.p_last_xstream, &p_prev->thread);
     /* Decrease the number of blocked threads. */
     ABTI_pool_dec_num_blocked(p_next->thread.p_pool);
+    ABTI_VERIF_EV(ABTI_VEV_NB_WHO, &p_next->thread, p_next->thread.p_pool, 2);
 }
 
 void ABTI_ythread_callback_suspend_unlock(void *arg)
@@ -181,6 +187,7 @@ void ABTI_ythread_callback_suspend_unlock(void *arg)
     ABTI_VERIF_EV(ABTI_VEV_CB, &p_prev->thread, ABTI_VCB_SUSPEND_UNLOCK, 0);
     /* Increase the number of blocked threads */
     ABTI_pool_inc_num_blocked(p_prev->thread.p_pool);
+    ABTI_VERIF_EV(ABTI_VEV_NB_WHO, &p_prev->thread, p_prev->thread.p_pool, 1);
     /* Request handling.  p_prev->thread.p_pool might be changed. */
     ABTI_thread_handle_request(&p_prev->thread, ABT_FALSE);
     /* Set this thread's state to BLOCKED. */
@@ -203,6 +210,7 @@ void ABTI_ythread_callback_suspend_join(void *arg)
     ABTI_VERIF_EV(ABTI_VEV_CB, &p_prev->thread, ABTI_VCB_SUSPEND_JOIN, 0);
     /* Increase the number of blocked threads */
     ABTI_pool_inc_num_blocked(p_prev->thread.p_pool);
+    ABTI_VERIF_EV(ABTI_VEV_NB_WHO, &p_prev->thread, p_prev->thread.p_pool, 1);
     /* Request handling.  p_prev->thread.p_pool might be changed. */
     ABTI_thread_handle_request(&p_prev->thread, ABT_FALSE);
     /* Set this thread's state to BLOCKED. */
@@ -230,6 +238,7 @@ void ABTI_ythread_callback_suspend_replace_sched(void *arg)
     ABTI_VERIF_EV(ABTI_VEV_CB, &p_prev->thread, ABTI_VCB_SUSPEND_REPLACE_SCHED, 0);
     /* Increase the number of blocked threads */
     ABTI_pool_inc_num_blocked(p_prev->thread.p_pool);
+    ABTI_VERIF_EV(ABTI_VEV_NB_WHO, &p_prev->thread, p_prev->thread.p_pool, 1);
     /* Request handling.  p_prev->thread.p_pool might be changed. */
     ABTI_thread_handle_request(&p_prev->thread, ABT_FALSE);
     /* Set this thread's state to BLOCKED. */
